@@ -313,6 +313,28 @@ __wrap_mkdir(const char *path, mode_t mode)
 			e = ENOSPC;
 		}
 	} else {
+		static long ncreate;
+		struct stat stx;
+		int creates = __real_stat(path, &stx) != 0;
+		if (creates)
+			ncreate++;
+		if (creates && sim_cfg.sibling_rmdir_nth > 0 && ncreate == sim_cfg.sibling_rmdir_nth) {
+			/* another process of the same loom finishes right now and removes the (still empty)
+			 * directory this one has just created and is about to create a child in */
+			char parent[4096];
+			size_t n = strlen(path);
+			while (n > 0 && path[n - 1] == '/')
+				n--;
+			while (n > 0 && path[n - 1] != '/')
+				n--;
+			while (n > 1 && path[n - 1] == '/')
+				n--;
+			if (n > 0 && n < sizeof(parent)) {
+				bytecopy(parent, path, n);
+				parent[n] = '\0';
+				__real_rmdir(parent);
+			}
+		}
 		ret = __real_mkdir(path, mode);
 		e = ret ? errno : 0;
 	}
@@ -471,6 +493,27 @@ __wrap_close(int fd)
 	}
 	end_step(k, "close", path, fd, ret, e);
 	errno = e;
+	return ret;
+}
+
+extern int __real_fcntl(int fd, int cmd, ...);
+
+/* Not a numbered step (nothing to fail that the properties talk about): the only job here is to
+ * keep the descriptor -> path table right when the library duplicates a descriptor. */
+int
+__wrap_fcntl(int fd, int cmd, ...)
+{
+	va_list ap;
+	va_start(ap, cmd);
+	long arg = va_arg(ap, long);
+	va_end(ap);
+	int ret = __real_fcntl(fd, cmd, arg);
+	if (sim_self() >= 0 && ret >= 0 && ret < MAXFD && (cmd == F_DUPFD || cmd == F_DUPFD_CLOEXEC)
+			&& fd >= 0 && fd < MAXFD && fdpath[fd]) {
+		int e = errno;
+		set_fdpath(ret, fdpath[fd]);
+		errno = e;
+	}
 	return ret;
 }
 
